@@ -1,8 +1,551 @@
-//! C05 — not implemented yet (stub).
-use crate::engine::Opts;
-pub fn main(_opts: &Opts) -> i32 {
-    eprintln!("C05: check not implemented");
-    2
+//! C05 — canonical N-Quads is a complete isomorphism invariant of the dataset.
+//!
+//! Metamorphic pairs: (A, relabelled + shuffled + other container copy of A) must give the same
+//! bytes; (A, near-isomorphic mutant of A) must give the same bytes iff `iso_exact` says
+//! isomorphic (language tags compared literally). The output, read back by the independent
+//! N-Quads reader, must be isomorphic to the input with labels c14n0..c14n(n-1); the
+//! returned id map must be a bijection that maps the input onto the returned quads.
+use crate::c06::{self, rdfc_ref, DsSpec, SRes, Sh};
+use crate::engine::*;
+use crate::gen::*;
+use crate::iso;
+use crate::model::*;
+use crate::nqread;
+use proptest::prelude::*;
+use serde::{Deserialize, Serialize};
+use std::collections::{BTreeMap, BTreeSet};
+
+#[derive(Clone, Debug, Serialize, Deserialize)]
+pub enum Twin {
+    /// swap the objects of two quads whose objects are blank (keeps every in/out degree)
+    SwapTargets(usize, usize),
+    /// redirect the object of a quad to another blank node
+    MoveTarget(usize, usize),
+    /// replace a ground object (or ground subject) by another ground term
+    ChangeGround(usize, MT),
+    /// switch the predicate of one quad
+    FlipPred(usize),
+    /// change the case of the language tag of one literal (must change the canonical form)
+    TagCase(usize),
+    /// rename one blank node to another one (merge)
+    Merge(usize, usize),
+    DropQuad(usize),
+    /// move one quad to another graph (default <-> named)
+    Regraph(usize),
+    /// another structure of the same size: C_2k <-> 2 x C_k, circulant steps changed, ...
+    Confuse(u8, u8),
+}
+
+#[derive(Clone, Debug, Serialize, Deserialize)]
+pub enum Input {
+    Spec(DsSpec),
+    Quads(Vec<MQ>),
+}
+
+#[derive(Clone, Debug, Serialize, Deserialize)]
+pub struct Case {
+    pub input: Input,
+    pub salt: u64,
+    pub swaps: Vec<usize>,
+    pub cont_a: u8,
+    pub cont_b: u8,
+    pub twin: Twin,
+    pub twin_salt: u64,
+}
+
+pub struct C05;
+
+/// signature of the one recorded finding (RDFC-1.0 itself is label-dependent on such inputs; the
+/// harness's independent reference gives several documents for relabelled copies as well)
+const AMBIGUOUS: &str = "c14n/label-dependent/same-predicate-bnode-arcs-in-several-graphs";
+
+/// Trigger of the recorded finding: a blank node is linked to blank nodes by quads with the same
+/// predicate in two different graphs. RDFC-1.0's Hash Related Blank Node does not hash the graph
+/// of the quad, so such arcs can be told apart by the first-degree hash only.
+fn multi_graph_trigger(qs: &[MQ]) -> bool {
+    let arcs: Vec<&MQ> = qs.iter().filter(|q| q.s.is_bnode() && q.o.is_bnode()).collect();
+    arcs.iter().any(|q1| arcs.iter().any(|q2| q1.p == q2.p && q1.g != q2.g && (q1.s == q2.s || q1.s == q2.o || q1.o == q2.s || q1.o == q2.o)))
+}
+
+/// work budget (calls of Hash N-Degree Quads) of the harness reference; costlier datasets are skipped
+const BUDGET: u64 = 6_000;
+
+/// isomorphism judge with language tags compared literally: the tag is moved into a
+/// pseudo-datatype so that `iso_exact` (whose term equality folds tag case) sees it verbatim
+fn literal_tags(qs: &[MQ]) -> Vec<MQ> {
+    fn f(t: &MT) -> MT {
+        match t {
+            MT::Lang(l, tag) => MT::Lit(l.clone(), format!("urn:x-langtag:{tag}")),
+            x => x.clone(),
+        }
+    }
+    qs.iter().map(|q| MQ::new(f(&q.s), f(&q.p), f(&q.o), q.g.as_ref().map(f))).collect()
+}
+fn iso_lit(a: &[MQ], b: &[MQ]) -> Option<bool> {
+    iso::iso_exact_budget(&literal_tags(a), &literal_tags(b), Some(3_000_000))
+}
+
+fn input_quads(i: &Input) -> Vec<MQ> {
+    match i {
+        Input::Spec(s) => s.build(),
+        Input::Quads(q) => c06::normalise_dataset(q.clone()),
+    }
+}
+
+fn confuse(spec: &DsSpec, a: u8, b: u8) -> DsSpec {
+    let mut s = spec.clone();
+    if let Some(c) = s.comps.first_mut() {
+        c.sh = match &c.sh {
+            Sh::Lib(Shape::Cycle(n)) if *n >= 4 && n % 2 == 0 => Sh::Lib(Shape::TwoCycles(n / 2)),
+            Sh::Lib(Shape::Cycle(n)) if *n >= 6 && n % 3 == 0 => {
+                c.copies = 1;
+                // three cycles of n/3 as explicit arcs
+                let k = n / 3;
+                let mut arcs = vec![];
+                for j in 0..3 {
+                    for i in 0..k {
+                        arcs.push((j * k + i, j * k + (i + 1) % k));
+                    }
+                }
+                Sh::Arcs(*n, arcs)
+            }
+            Sh::Lib(Shape::TwoCycles(k)) => Sh::Lib(Shape::Cycle(2 * k)),
+            Sh::Circulant(n, x, y) => {
+                let n1 = (*n).max(2) - 1;
+                Sh::Circulant(*n, (x + a as usize) % n1 + 1, (y + b as usize) % n1 + 1)
+            }
+            Sh::Lib(Shape::Bipartite(x, y)) => Sh::Lib(Shape::Bipartite(*y, *x)),
+            Sh::Lib(Shape::Path(n)) => Sh::Lib(Shape::Star(*n)),
+            Sh::Lib(Shape::Star(n)) => Sh::Lib(Shape::Path(*n)),
+            Sh::Lib(Shape::Tree(n)) => Sh::Lib(Shape::Path(n.saturating_sub(1).max(1))),
+            Sh::Lib(Shape::Rho(x, y)) => Sh::Lib(Shape::Rho(*y, *x)),
+            Sh::Lib(Shape::Clique(n)) => {
+                // clique with one arc reversed twice = same; with one arc removed and a parallel added
+                let (_, mut arcs) = Shape::Clique(*n).arcs();
+                let i = a as usize % arcs.len();
+                let (x, y) = arcs[i];
+                arcs[i] = (y, x);
+                Sh::Arcs(*n, arcs)
+            }
+            other => other.clone(),
+        };
+    }
+    s
+}
+
+fn apply_twin(spec: &Input, qs: &[MQ], twin: &Twin) -> (Vec<MQ>, &'static str) {
+    let mut out: Vec<MQ> = qs.to_vec();
+    let n = out.len();
+    let bn_obj: Vec<usize> = (0..n).filter(|&i| out[i].o.is_bnode()).collect();
+    let labels = all_bnodes(qs);
+    let kind = match twin {
+        Twin::SwapTargets(i, j) => {
+            if bn_obj.len() >= 2 {
+                let (i, j) = (bn_obj[i % bn_obj.len()], bn_obj[j % bn_obj.len()]);
+                let (oi, oj) = (out[i].o.clone(), out[j].o.clone());
+                out[i].o = oj;
+                out[j].o = oi;
+            }
+            "swap-targets"
+        }
+        Twin::MoveTarget(i, k) => {
+            if !bn_obj.is_empty() && !labels.is_empty() {
+                let i = bn_obj[i % bn_obj.len()];
+                out[i].o = MT::bn(labels[k % labels.len()].clone());
+            }
+            "move-target"
+        }
+        Twin::ChangeGround(i, t) => {
+            let gr: Vec<usize> = (0..n).filter(|&i| !out[i].o.is_bnode() || !out[i].s.is_bnode()).collect();
+            if !gr.is_empty() {
+                let i = gr[i % gr.len()];
+                if !out[i].o.is_bnode() {
+                    out[i].o = t.clone();
+                } else {
+                    out[i].s = MT::iri("http://x/other");
+                }
+            }
+            "change-ground"
+        }
+        Twin::FlipPred(i) => {
+            if n > 0 {
+                let i = i % n;
+                out[i].p = if out[i].p == MT::iri(c06::P) { MT::iri(c06::Q) } else { MT::iri(c06::P) };
+            }
+            "flip-predicate"
+        }
+        Twin::TagCase(i) => {
+            let lg: Vec<usize> = (0..n).filter(|&i| matches!(out[i].o, MT::Lang(..))).collect();
+            if !lg.is_empty() {
+                let i = lg[i % lg.len()];
+                // every quad with that (lexical, tag) literal is changed alike, so that no
+                // container ever sees two spellings of one tag
+                if let MT::Lang(l, t) = out[i].o.clone() {
+                    let flipped: String = t.chars().map(|c| if c.is_ascii_lowercase() { c.to_ascii_uppercase() } else { c.to_ascii_lowercase() }).collect();
+                    for q in out.iter_mut() {
+                        if let MT::Lang(l2, t2) = &q.o {
+                            if *l2 == l && t2.eq_ignore_ascii_case(&t) {
+                                q.o = MT::Lang(l.clone(), flipped.clone());
+                            }
+                        }
+                    }
+                }
+            }
+            "tag-case"
+        }
+        Twin::Merge(a, b) => {
+            if labels.len() >= 2 {
+                let (a, b) = (labels[a % labels.len()].clone(), labels[b % labels.len()].clone());
+                out = out.iter().map(|q| q.map_bnodes(&|x| if x == b { a.clone() } else { x.to_string() })).collect();
+            }
+            "merge-bnodes"
+        }
+        Twin::DropQuad(i) => {
+            if n > 0 {
+                out.remove(i % n);
+            }
+            "drop-quad"
+        }
+        Twin::Regraph(i) => {
+            if n > 0 {
+                let i = i % n;
+                out[i].g = if out[i].g.is_none() { Some(MT::iri("http://x/g1")) } else { None };
+            }
+            "regraph"
+        }
+        Twin::Confuse(a, b) => {
+            if let Input::Spec(s) = spec {
+                out = confuse(s, *a, *b).build();
+            }
+            "confusable-structure"
+        }
+    };
+    (c06::normalise_dataset(out), kind)
+}
+
+struct Canon {
+    nq: String,
+    quads: Vec<MQ>,
+    idmap: BTreeMap<String, String>,
+}
+
+/// canonicalise with the default limits; None = ToxicGraph (outside the property's scope)
+fn canon(ctx: &mut Ctx, container: u8, qs: &[MQ], sha384: bool) -> Option<Canon> {
+    let t0 = std::time::Instant::now();
+    let r = canon0(ctx, container, qs, sha384);
+    if std::env::var_os("VERIF_TIMING").is_some() && t0.elapsed().as_millis() > 300 {
+        eprintln!("  canon {} ms sha384={sha384} container={container} on\n{}", t0.elapsed().as_millis(), show_quads(qs));
+    }
+    r
+}
+fn canon0(ctx: &mut Ctx, container: u8, qs: &[MQ], sha384: bool) -> Option<Canon> {
+    match catch(|| c06::run_sophia(container, qs, sha384, 1.0, 6)) {
+        Ok(Ok(SRes::Ok { nq, quads, idmap })) => Some(Canon { nq, quads, idmap }),
+        Ok(Ok(SRes::Toxic(_))) => {
+            ctx.class("toxic-graph(skipped)");
+            None
+        }
+        Ok(Ok(other)) => {
+            ctx.fail("c14n/error-on-supported-input", format!("{other:?}\n{}", show_quads(qs)));
+            None
+        }
+        Ok(Err(incoherent)) => {
+            ctx.fail("c14n/entry-points-disagree", format!("{incoherent}\n{}", show_quads(qs)));
+            None
+        }
+        Err(p) => {
+            ctx.fail(format!("c14n/panic/{}", panic_site(&p)), format!("{p}\n{}", show_quads(qs)));
+            None
+        }
+    }
+}
+
+/// structural trigger for signatures
+fn trigger(qs: &[MQ]) -> &'static str {
+    let twice = qs.iter().any(|q| {
+        let mut s = BTreeSet::new();
+        q.bnodes().iter().any(|x| !s.insert(*x))
+    });
+    let bgraph = qs.iter().any(|q| q.g.as_ref().map(MT::is_bnode).unwrap_or(false));
+    if twice {
+        "bnode-twice-in-one-quad"
+    } else if bgraph {
+        "blank-graph-name"
+    } else {
+        "plain"
+    }
+}
+
+fn check_single(ctx: &mut Ctx, qs: &[MQ], c: &Canon, h: &str) {
+    let trig = trigger(qs);
+    let labels = all_bnodes(qs);
+    let n = labels.len();
+    // 1. reading the document back
+    match nqread::parse_nquads(&c.nq) {
+        Err(e) => ctx.fail(format!("c14n/output-not-nquads/{trig}"), format!("[{h}] the independent N-Quads reader rejects the output: {e}\n{}", c.nq)),
+        Ok(back) => {
+            if back.len() != c.nq.lines().count() {
+                ctx.fail(format!("c14n/output-not-nquads/{trig}"), format!("[{h}] not one statement per line\n{}", c.nq));
+            }
+            let want: Vec<String> = {
+                let mut v: Vec<String> = (0..n).map(|i| format!("c14n{i}")).collect();
+                v.sort();
+                v
+            };
+            if all_bnodes(&back) != want {
+                ctx.fail(format!("c14n/labels-not-c14n0..n/{trig}"), format!("[{h}] labels {:?}, expected c14n0..c14n{}\n{}", all_bnodes(&back), n as i64 - 1, c.nq));
+            }
+            match iso_lit(qs, &back) {
+                Some(true) => {}
+                Some(false) => ctx.fail(
+                    format!("c14n/output-not-isomorphic-to-input/{trig}"),
+                    format!("[{h}] input:\n{}\n output:\n{}\n{}", show_quads(qs), c.nq, iso::diff_summary(&literal_tags(qs), &literal_tags(&back))),
+                ),
+                None => ctx.class("iso-budget-exceeded"),
+            }
+            // sorted, no duplicate line
+            let lines: Vec<&str> = c.nq.lines().collect();
+            if lines.windows(2).any(|w| w[0].as_bytes() >= w[1].as_bytes()) {
+                ctx.fail(format!("c14n/lines-not-sorted/{trig}"), format!("[{h}] lines are not strictly increasing in code point order\n{}", c.nq));
+            }
+        }
+    }
+    // 2. the id map is a bijection from the input labels onto c14n0..c14n(n-1)
+    let keys: Vec<String> = c.idmap.keys().cloned().collect();
+    let vals: BTreeSet<String> = c.idmap.values().cloned().collect();
+    let want: BTreeSet<String> = (0..n).map(|i| format!("c14n{i}")).collect();
+    if keys != labels || vals != want {
+        ctx.fail(format!("c14n/idmap-not-bijection/{trig}"), format!("[{h}] input labels {labels:?}, id map {:?}", c.idmap));
+        return;
+    }
+    // 3. applying it to the input gives exactly the returned quads
+    let mapped: Vec<MQ> = qs.iter().map(|q| q.map_bnodes(&|b| c.idmap[b].clone())).collect();
+    let mut a = mapped.clone();
+    let mut b = c.quads.clone();
+    a.sort();
+    b.sort();
+    if a.len() != b.len() || !a.iter().zip(b.iter()).all(|(x, y)| x.same_repr(y)) {
+        ctx.fail(format!("c14n/idmap-does-not-give-returned-quads/{trig}"), format!("[{h}] id map applied to the input:\n{}\n returned quads:\n{}", show_quads(&a), show_quads(&b)));
+    }
+    // ... and those are the document
+    let mut l: Vec<String> = mapped.iter().map(|q| rdfc_ref::quad_nq(q, &|x: &str| x.to_string())).collect();
+    l.sort();
+    if l.concat() != c.nq {
+        ctx.fail(format!("c14n/idmap-does-not-give-document/{trig}"), format!("[{h}] id map applied to the input:\n{}\n document:\n{}", l.concat(), c.nq));
+    }
+}
+
+impl Check for C05 {
+    type Case = Case;
+    const ID: &'static str = "C05";
+    fn rule() -> String {
+        "supported datasets from symmetric families (cycles, cliques, stars, K_{m,n}, paths, trees, rho, circulant digraphs, disjoint isomorphic copies, blank graph names; <=14 blank nodes) with ground decorations; pair A = bijective relabelling + quad shuffle + other container (6 container types), pair B = near-isomorphic mutant (swap two arc targets, redirect an arc, change a ground term / predicate / tag case / graph, merge, drop, C_2k vs 2xC_k ...) judged by exact isomorphism search with literal tag comparison; both hashes. Non-trivial = canonicalisation succeeded and >=2 blank nodes share a first-degree hash (computed by the harness reference); distinct by hash of the case."
+            .into()
+    }
+    fn assumptions() -> Vec<String> {
+        vec![
+            "inputs where canonicalisation answers ToxicGraph under the default limits are outside the property ('whenever canonicalisation succeeds'); they are counted in class toxic-graph(skipped)".into(),
+            "within one dataset every (lexical form, case-folded tag) has a single spelling, because sophia's containers treat tags case-insensitively and could otherwise merge two spellings".into(),
+            "pairs whose exact isomorphism search exceeds 3e6 search nodes are skipped (class iso-budget-exceeded)".into(),
+            "the returned quads are compared with the mapped input as sets (exact term representation incl. tag case)".into(),
+        ]
+    }
+    fn cases(tier: Tier) -> u32 {
+        tier.pick(5_000, 160_000)
+    }
+    fn strategy(_tier: Tier) -> BoxedStrategy<Case> {
+        let twin = prop_oneof![
+            4 => (0..64usize, 0..64usize).prop_map(|(a, b)| Twin::SwapTargets(a, b)),
+            2 => (0..64usize, 0..64usize).prop_map(|(a, b)| Twin::MoveTarget(a, b)),
+            1 => (0..64usize, c06::ground_object()).prop_map(|(a, t)| Twin::ChangeGround(a, t)),
+            1 => (0..64usize).prop_map(Twin::FlipPred),
+            1 => (0..64usize).prop_map(Twin::TagCase),
+            1 => (0..64usize, 0..64usize).prop_map(|(a, b)| Twin::Merge(a, b)),
+            1 => (0..64usize).prop_map(Twin::DropQuad),
+            1 => (0..64usize).prop_map(Twin::Regraph),
+            3 => (0..8u8, 0..8u8).prop_map(|(a, b)| Twin::Confuse(a, b)),
+        ];
+        let spec = prop_oneof![3 => c06::ds_strategy(12), 2 => c06::ds_strategy(8)];
+        (spec, any::<u64>(), prop::collection::vec(0..64usize, 0..24), 0..6u8, 0..6u8, twin, any::<u64>())
+            .prop_map(|(spec, salt, swaps, cont_a, cont_b, twin, twin_salt)| Case { input: Input::Spec(spec), salt, swaps, cont_a, cont_b, twin, twin_salt })
+            .boxed()
+    }
+    fn show(case: &Case) -> serde_json::Value {
+        let qs = input_quads(&case.input);
+        let (tw, kind) = apply_twin(&case.input, &qs, &case.twin);
+        serde_json::json!({
+            "A": qs.iter().map(MQ::show).collect::<Vec<_>>(),
+            "containers": [c06::CONTAINERS[case.cont_a as usize % 6], c06::CONTAINERS[case.cont_b as usize % 6]],
+            "twin": kind,
+            "B": tw.iter().map(MQ::show).collect::<Vec<_>>(),
+        })
+    }
+    fn run(case: &Case, ctx: &mut Ctx) {
+        let t0 = std::time::Instant::now();
+        Self::run_inner(case, ctx);
+        if std::env::var_os("VERIF_TIMING").is_some() && t0.elapsed().as_millis() > 1500 {
+            eprintln!("SLOW {} ms: {}", t0.elapsed().as_millis(), serde_json::to_string(case).unwrap());
+        }
+    }
+}
+impl C05 {
+    fn run_inner(case: &Case, ctx: &mut Ctx) {
+        let a = input_quads(&case.input);
+        if c06_unsupported(&a) {
+            ctx.class("out-of-domain");
+            return;
+        }
+        if let Input::Spec(s) = &case.input {
+            for f in s.families() {
+                ctx.class(format!("family:{f}"));
+            }
+        }
+        ctx.class(format!("containers:{}+{}", c06::CONTAINERS[case.cont_a as usize % 6], c06::CONTAINERS[case.cont_b as usize % 6]));
+        // the harness reference gives the first-degree hashes (non-triviality) and bounds the cost
+        // (sophia does at least the work of the unpruned reference, and that work depends on the hash
+        // function, so the reference is run first, for both hashes, under a work budget)
+        let r = match (rdfc_ref::canonicalize(&a, rdfc_ref::Alg::Sha256, BUDGET), rdfc_ref::canonicalize(&a, rdfc_ref::Alg::Sha384, BUDGET)) {
+            (Ok(r), Ok(_)) => r,
+            _ => {
+                ctx.class("ref-budget-exceeded");
+                return;
+            }
+        };
+        let shared = r.stats.shared_fd;
+        ctx.class(format!("bnodes:{}", match r.stats.bnodes { 0 => "0", 1 => "1", 2..=3 => "2-3", 4..=7 => "4-7", 8..=10 => "8-10", _ => "11+" }));
+        if shared >= 2 {
+            ctx.class("shared-first-degree-hash");
+        }
+        if a.iter().any(|q| q.g.as_ref().map(MT::is_bnode).unwrap_or(false)) {
+            ctx.class("blank-graph-name");
+        }
+        let trig = trigger(&a);
+        if multi_graph_trigger(&a) {
+            ctx.class("same-predicate-bnode-arcs-in-several-graphs");
+        }
+
+        // ---- pair A: relabel + shuffle + other container
+        let a2 = permute(relabel(&a, case.salt), &case.swaps);
+        for sha384 in [false, true] {
+            let h = if sha384 { "SHA-384" } else { "SHA-256" };
+            let ca = match canon(ctx, case.cont_a, &a, sha384) {
+                Some(c) => c,
+                None => return,
+            };
+            if shared >= 2 {
+                ctx.nontrivial();
+            }
+            check_single(ctx, &a, &ca, h);
+            if ctx.failed() {
+                return;
+            }
+            let cb = match canon(ctx, case.cont_b, &a2, sha384) {
+                Some(c) => c,
+                None => {
+                    if !ctx.failed() {
+                        ctx.fail(format!("c14n/success-depends-on-labels/{trig}"), format!("[{h}] canonicalisation succeeds on A but answers ToxicGraph on a relabelled copy\n A:\n{}\n copy:\n{}", show_quads(&a), show_quads(&a2)));
+                    }
+                    return;
+                }
+            };
+            if ca.nq != cb.nq {
+                let alg = if sha384 { rdfc_ref::Alg::Sha384 } else { rdfc_ref::Alg::Sha256 };
+                let nalt = rdfc_ref::alt_docs(&a, alg, BUDGET, 60).len();
+                let sig = if multi_graph_trigger(&a) { AMBIGUOUS.to_string() } else { format!("c14n/depends-on-labels-or-order/{trig}") };
+                ctx.fail(
+                    sig,
+                    format!(
+                        "[{h}] (the harness's RDFC-1.0 reference yields {nalt} distinct document(s) on relabelled copies of A) a relabelled, shuffled copy in {} gives another canonical form than the original in {}\n A:\n{}\n copy:\n{}\n c14n(A):\n{}\n c14n(copy):\n{}",
+                        c06::CONTAINERS[case.cont_b as usize % 6],
+                        c06::CONTAINERS[case.cont_a as usize % 6],
+                        show_quads(&a),
+                        show_quads(&a2),
+                        ca.nq,
+                        cb.nq
+                    ),
+                );
+                return;
+            }
+            check_single(ctx, &a2, &cb, h);
+            if ctx.failed() {
+                return;
+            }
+
+            // ---- pair B: near-isomorphic mutant
+            let (b0, kind) = apply_twin(&case.input, &a, &case.twin);
+            if c06_unsupported(&b0) {
+                continue;
+            }
+            let b = permute(relabel(&b0, case.twin_salt), &case.swaps);
+            if !sha384 {
+                ctx.class(format!("twin:{kind}"));
+            }
+            let truth = match iso_lit(&a, &b) {
+                Some(t) => t,
+                None => {
+                    ctx.class("iso-budget-exceeded");
+                    continue;
+                }
+            };
+            let rb = match rdfc_ref::canonicalize(&b, if sha384 { rdfc_ref::Alg::Sha384 } else { rdfc_ref::Alg::Sha256 }, BUDGET) {
+                Ok(rb) => rb,
+                Err(_) => {
+                    ctx.class("ref-budget-exceeded(twin)");
+                    continue;
+                }
+            };
+            let cm = match canon(ctx, case.cont_b, &b, sha384) {
+                Some(c) => c,
+                None => {
+                    if truth && !ctx.failed() {
+                        ctx.fail(format!("c14n/success-depends-on-labels/{trig}"), format!("[{h}] ToxicGraph on a dataset isomorphic to one that is canonicalised\n A:\n{}\n B:\n{}", show_quads(&a), show_quads(&b)));
+                    }
+                    if ctx.failed() {
+                        return;
+                    }
+                    continue;
+                }
+            };
+            if !sha384 {
+                ctx.class(if truth { "twin-isomorphic" } else { "twin-not-isomorphic" });
+                if !truth {
+                    // the hard case: same multiset of first-degree hashes, still not isomorphic
+                    let ms = |m: &BTreeMap<String, String>| {
+                        let mut v: Vec<String> = m.values().cloned().collect();
+                        v.sort();
+                        v
+                    };
+                    if ms(&rb.fd) == ms(&r.fd) && !r.fd.is_empty() {
+                        ctx.class("twin-not-isomorphic-same-first-degree-hashes");
+                    }
+                }
+            }
+            let same = ca.nq == cm.nq;
+            if same != truth {
+                let sig = if truth { "c14n/isomorphic-but-different-output" } else { "c14n/not-isomorphic-but-same-output" };
+                let alg = if sha384 { rdfc_ref::Alg::Sha384 } else { rdfc_ref::Alg::Sha256 };
+                let _ = alg;
+                let sig = if truth && multi_graph_trigger(&a) { AMBIGUOUS.to_string() } else { format!("{sig}/{kind}/{trig}") };
+                ctx.fail(
+                    sig,
+                    format!("[{h}] exact isomorphism search says {truth}, byte equality of canonical forms says {same}\n A:\n{}\n B:\n{}\n c14n(A):\n{}\n c14n(B):\n{}", show_quads(&a), show_quads(&b), ca.nq, cm.nq),
+                );
+                return;
+            }
+            check_single(ctx, &b, &cm, h);
+            if ctx.failed() {
+                return;
+            }
+        }
+    }
+}
+
+fn c06_unsupported(qs: &[MQ]) -> bool {
+    qs.iter().any(|q| q.p.is_bnode() || q.terms().iter().any(|t| t.is_triple() || t.is_var() || (t.is_literal() && !std::ptr::eq(*t, &q.o))) || !q.p.is_iri() || !(q.s.is_iri() || q.s.is_bnode()))
+}
+
+pub fn main(opts: &Opts) -> i32 {
+    drive::<C05>(opts)
 }
 pub fn worker(_args: &[String]) -> i32 {
     2
